@@ -30,13 +30,13 @@ CLASSES = ['int', 'float', 'decimal', 'mixed', 'huge', 'highprec', 'negzero', 't
 
 def gen_cases(tier, seed):
     n = {'quick': 70, 'thorough': 1500}[tier]
+    spill = {'quick': ['int', 'text', 'num_text', 'mixed'],
+             'thorough': CLASSES * 3}[tier]
+    for i, c in enumerate(spill):   # long cases first (shards take cases round-robin)
+        yield {'family': c, 'idx': 10 ** 6 + i, 'seed': seed, 'spill': True}
     for c in CLASSES:
         for i in range(n):
             yield {'family': c, 'idx': i, 'seed': seed, 'spill': False}
-    spill = {'quick': ['int', 'text', 'num_text', 'mixed'],
-             'thorough': CLASSES * 3}[tier]
-    for i, c in enumerate(spill):
-        yield {'family': c, 'idx': 10 ** 6 + i, 'seed': seed, 'spill': True}
 
 
 TEXT = ['a', 'a0', 'aa', 'ab', 'abc', 'b', '', 'B', 'a b', 'a!', 'a~', 'z']
